@@ -28,10 +28,11 @@ Qed.
 
 Lemma init_liveok : LiveOK init_state /\ NoDup (live init_state).
 Proof.
-  split; [split; [|split]|constructor].
+  split; [split; [|split; [|split]]|constructor].
   - intros m Hm; destruct Hm.
   - intros i d [k H]. unfold slot in H. cbn in H. discriminate.
   - split; [intros [|j]; cbn; lia|reflexivity].
+  - split; [reflexivity|constructor].
 Qed.
 
 (* the grammar never trips a marker assertion and returns with no live marker and with every
